@@ -145,6 +145,10 @@ type Handle struct {
 	//   "short:<actor>"     reader fails after n bytes (get/getrange)
 	//   "slow:<actor>"      the op takes simulated time
 	OnCrash func()
+	// Intercept, when set, is asked after the operation was released and before it takes effect;
+	// a non-nil error is returned to the caller and the operation has no effect (world-specific
+	// fault decisions, e.g. "fail the k-th read of a sync").
+	Intercept func(kind, canonName string) error
 
 	mu      sync.Mutex
 	crashed bool
@@ -220,6 +224,14 @@ func (h *Handle) begin(ctx context.Context, kind, name string) *opCtx {
 		time.Sleep(time.Duration(1+s.Pick("slow", oc.id, 30)) * time.Second)
 		if err := ctx.Err(); err != nil {
 			oc.fail = err
+			return oc
+		}
+	}
+	if h.Intercept != nil {
+		if err := h.Intercept(kind, cn); err != nil {
+			oc.fail = err
+			oc.op.Err = "intercepted"
+			h.B.record(oc.op)
 			return oc
 		}
 	}
